@@ -40,7 +40,8 @@ VARIABLES hist,      \* request classes sent so far (one connection each)
           delivered, \* bag of delivered indications as a sequence
           gate,      \* open | held : the tester holds the callback
           inflight,  \* indication the callback thread sits on (0 = none)
-          script     \* what the tester did: req(class) | block | release
+          script     \* what the tester did: req(class) | block | release |
+                     \* peerclose(request number)
 vars == <<hist, conn, queue, delivered, gate, inflight, script>>
 
 Fl == [san |-> San, clchk |-> ClChk, qfret |-> QfRet]
@@ -53,7 +54,7 @@ NoneSent == \A i \in DOMAIN conn : conn[i].st # "sent"
 (* was delivered, no connection of its own still open                      *)
 Drained == /\ gate = "open" /\ queue = << >> /\ inflight = 0
            /\ \A i \in DOMAIN conn : conn[i].st = "done"
-Step(op, c) == [op |-> op, cls |-> c]
+Step(op, c, i) == [op |-> op, cls |-> c, idx |-> i]   \* idx: request number
 
 (* the peer is sequential: it sends the next request when the previous one *)
 (* was answered, dropped, or is observed to make the server wait           *)
@@ -63,7 +64,7 @@ Send(c) ==
   /\ hist' = Append(hist, c)
   /\ conn' = Append(conn, [st |-> "sent", obs |-> Blank, forced |-> FALSE,
                            env |-> [qcap |-> QCap, drained |-> Drained]])
-  /\ script' = Append(script, Step("req", c))
+  /\ script' = Append(script, Step("req", c, Len(hist) + 1))
   /\ UNCHANGED <<queue, delivered, gate, inflight>>
 
 (* the tester holds / releases the callback (between two requests)         *)
@@ -71,7 +72,7 @@ Block ==
   /\ Gating /\ gate = "open" /\ NoneSent /\ Len(hist) < MaxReq
   /\ \A k \in DOMAIN script : script[k].op # "block"
   /\ gate' = "held"
-  /\ script' = Append(script, Step("block", ValidReq))
+  /\ script' = Append(script, Step("block", ValidReq, 0))
   /\ UNCHANGED <<hist, conn, queue, delivered, inflight>>
 Release ==
   /\ gate = "held" /\ NoneSent
@@ -79,7 +80,7 @@ Release ==
   /\ delivered' = IF inflight # 0 THEN Append(delivered, inflight)
                   ELSE delivered
   /\ inflight' = 0
-  /\ script' = Append(script, Step("release", ValidReq))
+  /\ script' = Append(script, Step("release", ValidReq, 0))
   /\ UNCHANGED <<hist, conn, queue>>
 
 CanHandle == Threaded \/ \A j \in DOMAIN conn : conn[j].st # "waiting"
@@ -118,10 +119,12 @@ Handle(i) ==
 (* indication it accepts is queued like any other                          *)
 PeerClose(i) ==
   /\ conn[i].st = "waiting"
+  /\ NoneSent                 \* the peer is sequential
   /\ LET o == AfterPeerClose(hist[i], Fl, QueueFullNow) IN
      /\ conn' = [conn EXCEPT ![i].st = "done"]
      /\ queue' = IF o.ndeliv = 1 THEN Append(queue, i) ELSE queue
-  /\ UNCHANGED <<hist, delivered, gate, inflight, script>>
+  /\ script' = Append(script, Step("peerclose", hist[i], i))
+  /\ UNCHANGED <<hist, delivered, gate, inflight>>
 
 (* the callback thread: get() + callback; while the tester holds the       *)
 (* callback it gets one indication and sits on it until released           *)
@@ -228,18 +231,21 @@ Exits == {ValidReq,
           [ValidReq EXCEPT !.body = "nonInstance"]}
 
 (* the classes mixed into the bounded-queue histories: the two that reach  *)
-(* the enqueue, one per earlier exit kind (export ERROR, 400, 406), and    *)
-(* one that makes the server wait                                          *)
-QueueAlphabet == {ValidReq,
-                  [ValidReq EXCEPT !.body = "dupParam"],
-                  [ValidReq EXCEPT !.body = "unknownMethod"],
-                  [ValidReq EXCEPT !.body = "illformedXml"],
-                  [ValidReq EXCEPT !.accept = "bad"],
-                  [ValidReq EXCEPT !.clen = "long"]}
-QueueAlphabetSmall == {ValidReq,
-                       [ValidReq EXCEPT !.body = "dupParam"],
-                       [ValidReq EXCEPT !.body = "unknownMethod"],
-                       [ValidReq EXCEPT !.clen = "long"]}
+(* the enqueue and one per earlier exit kind (export ERROR, 400, 406);     *)
+(* QueueWait adds the one that makes the server wait (its handler reaches  *)
+(* the enqueue when the peer gives up)                                     *)
+QueuePlain == {ValidReq,
+               [ValidReq EXCEPT !.body = "dupParam"],
+               [ValidReq EXCEPT !.body = "unknownMethod"],
+               [ValidReq EXCEPT !.body = "illformedXml"],
+               [ValidReq EXCEPT !.accept = "bad"]}
+QueueWait == {ValidReq,
+              [ValidReq EXCEPT !.body = "dupParam"],
+              [ValidReq EXCEPT !.body = "unknownMethod"],
+              [ValidReq EXCEPT !.clen = "long"]}
+QueueTiny == {ValidReq,
+              [ValidReq EXCEPT !.body = "dupParam"],
+              [ValidReq EXCEPT !.body = "unknownMethod"]}
 
 (* class lists for the harness (printed once by the Emit configuration)    *)
 Tup(c) == <<c.verb, c.accept, c.charset, c.range, c.ctype, c.cenc, c.clen,
@@ -256,7 +262,8 @@ HitFull == \E i \in DOMAIN conn :
               /\ conn[i].forced
               /\ hist[i].body \in {"validExport", "dupParam"}
               /\ conn[i].obs.status = 200 /\ IsError(conn[i].obs)
-ScriptTup == [k \in DOMAIN script |-> <<script[k].op, Tup(script[k].cls)>>]
+ScriptTup == [k \in DOMAIN script |->
+                <<script[k].op, Tup(script[k].cls), script[k].idx>>]
 InvEmitScripts == (Complete /\ HitFull) => PrintT(<<"SCR", ScriptTup>>)
 EmitClasses == PrintT(<<"CLS1", {Tup(c) : c \in UpTo1}>>)
                /\ PrintT(<<"CLS2", {Tup(c) : c \in UpTo2 \ UpTo1}>>)
